@@ -432,6 +432,37 @@ func (e *Engine) loopHeaderText(fn *ssa.Function, li *loopInfo) (string, int) {
 		}
 	}
 	if best == nil {
+		// an instruction of the body carries a position outside the statement
+		// (e.g. a load of a variable declared before the loop): fall back to the
+		// innermost loop statement containing the header's first positioned instruction
+		var hp token.Pos
+		for _, ins := range li.header.Instrs {
+			if _, isPhi := ins.(*ssa.Phi); isPhi {
+				continue
+			}
+			if _, isDbg := ins.(*ssa.DebugRef); isDbg {
+				continue
+			}
+			if ins.Pos().IsValid() {
+				hp = ins.Pos()
+				break
+			}
+		}
+		for _, l := range loops {
+			if hp.IsValid() && l.Pos() <= hp && hp <= l.End() {
+				if best == nil || (l.Pos() >= best.Pos() && l.End() <= best.End()) {
+					best = l
+				}
+			}
+		}
+	}
+	if best == nil {
+		if os.Getenv("HVC_DEBUG_LOOPS") != "" {
+			fmt.Fprintf(os.Stderr, "loop header: no statement spans %v..%v in %s\n", e.fset.Position(minPos), e.fset.Position(maxPos), fn.String())
+			for _, l := range loops {
+				fmt.Fprintf(os.Stderr, "   candidate %v..%v\n", e.fset.Position(l.Pos()), e.fset.Position(l.End()))
+			}
+		}
 		return "", 0
 	}
 	text := func(l ast.Stmt) string {
@@ -495,7 +526,7 @@ func (e *Engine) Generate(fname string, sweep bool) (*FuncResult, error) {
 	g := &gen{eng: e, fn: fn, fname: shortFunc(fname), con: e.contracts.byKey[fname], sweep: sweep,
 		vals: map[ssa.Value]*Val{}, incoming: map[*ssa.BasicBlock][]*edge{}, done: map[*ssa.BasicBlock]bool{},
 		loops: map[*ssa.BasicBlock]*loopInfo{}, rpoIdx: map[*ssa.BasicBlock]int{}, names: map[string]int{}, notes: map[string]bool{},
-		params: map[string]*Val{}, varAt: map[string]ssa.Value{}, varAtBlock: map[*ssa.BasicBlock]map[string]ssa.Value{}, lastCall: map[string]*Val{}, lastCallBlock: map[*ssa.BasicBlock]map[string]*Val{}, cutPhi: map[*ssa.Phi]*Val{}, closures: map[int]*closureInfo{},
+		params: map[string]*Val{}, varAt: map[string]ssa.Value{}, varAtBlock: map[*ssa.BasicBlock]map[string]ssa.Value{}, lastCall: map[string]*Val{}, lastCallBlock: map[*ssa.BasicBlock]map[string]*Val{}, lastArgs: map[string][]*Val{}, lastArgsBlock: map[*ssa.BasicBlock]map[string][]*Val{}, cutPhi: map[*ssa.Phi]*Val{}, closures: map[int]*closureInfo{},
 		tupleAddrs: map[ssa.Value]map[int]*AddrInfo{}, deferArgs: map[*ssa.Defer][]*Val{}, rangeOver: map[*ssa.Range]*Val{},
 		str2bytes: map[int]*Term{}, lockKeys: map[LeafKey][]lockUse{}, obligedAt: map[int][]*ssa.BasicBlock{}, localRefs: map[int]bool{}, globalsSeen: map[int]bool{}, boxed: map[int]*Val{}, varAll: map[string]map[ssa.Value]bool{}, univDone: map[string]bool{}, preConj: map[int]bool{}}
 	if g.con != nil && g.con.Trusted {
